@@ -74,6 +74,7 @@ def dir? : Sexp → Option Dir
       | "when", [e] => (optExpr? e).map .pyWhen
       | "otherwise", [] => some .pyOtherwise
       | "unwrap", [e] => (optExpr? e).map .pyStrip
+      | "match", [.str n, once] => once.toBool?.map (.pyMatch n)
       | "def", [.str n, .list ps] => do
           let ps ← ps.mapM fun
             | .list [.str pn, d] => (optExpr? d).map fun d => (pn, d)
@@ -144,7 +145,8 @@ def ctxOut (c : Ctx) : Sexp :=
   .list [ .list (c.frames.map fun f => .list (f.map fun (k, v) => .list [.str k, valOut v])),
           .list (c.choice.map fun ch =>
             .list [ofBool ch.matched, ofBool ch.hasTest,
-                   match ch.value with | some v => valOut v | none => .atom "N"]) ]
+                   match ch.value with | some v => valOut v | none => .atom "N"]),
+          .list (c.mts.map fun mt => .list [.str mt.name, ofBool mt.once]) ]
 
 /-- template cells that differ (the write footprint of an action) -/
 def changed (a b : Heap) : List Nat :=
